@@ -255,3 +255,9 @@ Example rank_order_bins_ex :
   rank_order_bins_with stable_oracle (argsort [4;4;5;5;0;0;1;1;2;3;6;7;7;7]%Z) [4;4;5;5;0;0;1;1;2;3;6;7;7;7]%Z 4
   = Some ([0; 0; 1; 1; 0; 0; 0; 0; 0; 0; 1; 2; 2; 2], [0; 5; 7]%Z).
 Proof. vm_compute. reflexivity. Qed.
+
+(* nbins = 0 is outside the theorem's hypothesis 1 <= nbins, and rightly so: the model runs out
+   of fuel, as the code loops forever (observed: rank_order(np.array([1,2,3]), 0) hangs) *)
+Example rank_order_bins_nbins0 :
+  rank_order_bins_with stable_oracle (argsort [1;2;3]%Z) [1;2;3]%Z 0 = None.
+Proof. vm_compute. reflexivity. Qed.
